@@ -48,6 +48,7 @@ func init() {
 			scoped(ruleErrL1Scoped, startPath), scoped(ruleErrL2Scoped, startPath),
 			ruleIdx, ruleNilGuard, ruleGate, ruleHandshakeTable,
 			scoped(ruleBoundScoped, fnIn("Client.Start")), ruleOrderStart,
+			ruleAddrResolved, onlyObligations(ruleTLSPools, func(o *Obligation) bool { return strings.HasPrefix(o.Construct, "client pins the server certificate") }),
 		},
 		Technique:   "path-sensitive abstract interpretation over go/cfg (error nil-ness, len lower bounds, non-nil facts), dominance queries for validation gates, writer/reader table extraction",
 		Explanation: "Decides on every path of Client.Start and its helpers: every error produced while parsing the handshake line is read and, if non-nil, returned before the address is committed (R-ERR L1/L2); every constant index into the split line is within the established length (R-IDX); no optional config pointer is dereferenced unguarded (R-NILGUARD); the success commit is dominated by the core-version, app-version, address, protocol, certificate and multiplexing gates (R-GATE); the protocol/version/address reported are the line's fields (R-TABLE/handshake); the wait has a StartTimeout arm and an exit arm (R-BOUND); kill-on-error defer reads the named result (R-ORDER/O3). No nil-able result is dereferenced before the error returned with it was tested, anywhere in scope (R-ERR/L3); the stdout scanner hands every scanned line, unmodified, to the parser (R-DRAIN/lines). A handshake field k >= 3 is read whenever the line has at least k+1 fields (R-IDX/tight); the handshake address is translated with PluginToHost.",
@@ -55,7 +56,7 @@ func init() {
 		Assume:      []string{"net.ResolveTCPAddr/ResolveUnixAddr return a non-nil address iff the error is nil", "strings.Split with a non-empty separator returns at least one element"},
 	})
 	register(&propDef{ID: "C02",
-		Rules: []func(*Ctx){ruleServedSet, ruleLegacyFold, ruleVersionNegotiation, ruleVersionListParse, ruleEnvVersionsOnly, onlyObligations(ruleEnv, func(o *Obligation) bool {
+		Rules: []func(*Ctx){cfgWritersFor("ServeConfig.VersionedPlugins", "ServeConfig.Plugins", "ClientConfig.VersionedPlugins", "ClientConfig.Plugins", "HandshakeConfig.ProtocolVersion"), ruleServedSet, ruleLegacyFold, ruleLegacyFoldServer, ruleVersionNegotiation, ruleVersionListParse, ruleEnvVersionsOnly, onlyObligations(ruleEnv, func(o *Obligation) bool {
 			return o.Rule == "R-ORDER/O5" || (o.Rule == "R-TABLE/env" && strings.Contains(o.Construct, "PLUGIN_PROTOCOL_VERSIONS"))
 		})},
 		Technique:   "typestate (sorted-descending) and loop-shape analysis of the negotiation function; map-key/value pairing by object identity; table agreement offered=accepted",
@@ -64,7 +65,7 @@ func init() {
 		Assume:      []string{"sort.Sort(sort.Reverse(sort.IntSlice(x))) leaves x in descending order"},
 	})
 	register(&propDef{ID: "C03",
-		Rules: []func(*Ctx){ruleIdx, ruleWindows, ruleOrderO4, ruleErrL3, ruleClientCache, ruleStreamClose,
+		Rules: []func(*Ctx){onlyObligations(ruleLockOrder, func(o *Obligation) bool { return o.Rule == "R-LOCKORDER/self" }), ruleIdx, ruleWindows, ruleOrderO4, ruleErrL3, ruleClientCache, ruleStreamClose,
 			ruleExit, ruleCtx, ruleBound, ruleWG,
 			scoped(ruleErrL1Scoped, connectPath), scoped(ruleErrL2Scoped, connectPath),
 		},
@@ -74,7 +75,8 @@ func init() {
 		Assume:      []string{"yamux with default config (keep-alive on) fails a session whose peer is gone", "grpc-go fails RPCs on a closed connection"},
 	})
 	register(&propDef{ID: "C04",
-		Rules: []func(*Ctx){ruleWindows, ruleRunnerKill, ruleKillCtx, ruleOrderO4,
+		Rules: []func(*Ctx){onlyObligations(ruleLockOrder, func(o *Obligation) bool { return o.Rule == "R-LOCKORDER/self" }), ruleProcNil, ruleKilledFlag, onlyObligations(ruleDrain, func(o *Obligation) bool { return strings.Contains(o.Construct, "loop ends on read error") }),
+			ruleWindows, ruleRunnerKill, ruleKillCtx, ruleOrderO4,
 			ruleKill, ruleBoundRPC, scoped(ruleBoundScoped, fnIn("Client.Kill", "CleanupClients")), ruleSibClose, ruleWG,
 			guardOn("Client.", "managedClients", "RPCServer.DoneCh", "GRPCServer.broker"), ruleClose1,
 		},
@@ -84,8 +86,9 @@ func init() {
 		Assume:      []string{"context.WithTimeout bounds a unary gRPC call", "os.Process.Kill delivers SIGKILL"},
 	})
 	register(&propDef{ID: "C05",
-		Rules: []func(*Ctx){onlyObligations(ruleOnce, func(o *Obligation) bool { return strings.Contains(o.Construct, "launch gate") }), ruleKillCtx, ruleOrderO4,
+		Rules: []func(*Ctx){onlyObligations(ruleLockOrder, func(o *Obligation) bool { return o.Rule == "R-LOCKORDER/self" }), onlyObligations(ruleOnce, func(o *Obligation) bool { return strings.Contains(o.Construct, "launch gate") }), ruleKillCtx, ruleOrderO4,
 			ruleOrderStart, scoped(ruleErrL2Scoped, startPath), scoped(ruleErrL1Scoped, startPath), ruleKill, ruleSocketDir,
+			scoped(ruleBoundScoped, fnIn("Client.Start")), onlyObligations(ruleDrain, func(o *Obligation) bool { return strings.Contains(o.Construct, "loop ends on read error") }),
 		},
 		Technique:   "dominance/ordering queries on Client.Start (runner recorded before launch; kill-on-error defer registered right after a successful launch and reading the named result), error-path interpretation, Kill path enumeration",
 		Explanation: "Decides: the runner is stored in the client before it is started (O2); the deferred cleanup is registered immediately after a successful runner.Start with no return in between, and kills the runner iff the named result err is non-nil or a panic is in flight (O3); every post-launch failure is returned as a non-nil error so the guard fires (R-ERR/L2); Kill force-kills when no address was negotiated (R-EXIT/kill) and removes the socket directory on every non-early exit (R-RES/socketdir). Start stores client state (socket directory, runner) only behind the launched-once test, so a refused second Start cannot wipe what Kill has to clean up.",
@@ -93,7 +96,7 @@ func init() {
 		Assume:      []string{"deferred functions run on every return and on panic"},
 	})
 	register(&propDef{ID: "C06",
-		Rules: []func(*Ctx){ruleWindows, ruleSlotCapacityOne, ruleWireAgreement, ruleDeadline, ruleGetOrCreate, ruleExpiry, ruleRunNonBlocking, ruleFreshMsg,
+		Rules: []func(*Ctx){onlyObligations(ruleLockBlock, func(o *Obligation) bool { return strings.HasPrefix(o.Func, "MuxBroker.") }), ruleExpiryDrain, ruleRunDispatch, rulePendDone, ruleWindows, ruleSlotCapacityOne, ruleWireAgreement, ruleDeadline, ruleGetOrCreate, ruleExpiry, ruleRunNonBlocking, ruleFreshMsg,
 			ruleIDMux, ruleSlot, guardOn("MuxBroker."), scoped(ruleBoundScoped, fnIn("MuxBroker.Accept", "MuxBroker.timeoutWait", "MuxBroker.Run", "MuxBroker.Dial")), ruleAtomicIDs,
 		},
 		Technique:   "origin (def-use) resolution of the brokered id on both ends, channel-capacity check, lockset on the pending map, timer-arm classification",
@@ -102,7 +105,7 @@ func init() {
 		Assume:      []string{"yamux delivers each stream's bytes in order to its peer only"},
 	})
 	register(&propDef{ID: "C07",
-		Rules: []func(*Ctx){ruleNoAppendToParam, ruleWindows, ruleTranslateDirections, ruleSlotCapacityOne, ruleIDRoles, ruleDeadline, ruleGetOrCreate, ruleExpiry, ruleRunNonBlocking, ruleFreshMsg, ruleTranslate, ruleCtorStoresTLS,
+		Rules: []func(*Ctx){onlyObligations(ruleLockBlock, func(o *Obligation) bool { return strings.HasPrefix(o.Func, "GRPCBroker.") }), ruleRunDispatch, rulePendDone, ruleNoAppendToParam, ruleWindows, ruleTranslateDirections, ruleSlotCapacityOne, ruleIDRoles, ruleDeadline, ruleGetOrCreate, ruleExpiry, ruleRunNonBlocking, ruleFreshMsg, ruleTranslate, ruleCtorStoresTLS,
 			ruleIDGRPC, ruleSlot, guardOn("GRPCBroker."), scoped(ruleErrL1Scoped, fnIn("GRPCBroker.DialWithOptions", "GRPCBroker.Accept", "GRPCBroker.AcceptAndServe")),
 			scoped(ruleErrL2Scoped, fnIn("GRPCBroker.DialWithOptions", "GRPCBroker.Accept")), scoped(ruleBoundScoped, fnIn("GRPCBroker.DialWithOptions", "GRPCBroker.timeoutWait", "GRPCBroker.Run")),
 			ruleTLSUse, ruleAtomicIDs,
@@ -112,7 +115,7 @@ func init() {
 		NotDecided:  "routing under all interleavings; that grpc-go connects to the address it was given.",
 	})
 	register(&propDef{ID: "C08",
-		Rules: []func(*Ctx){ruleKnockTable, ruleMuxOnlyGRPC, ruleIDRoles, ruleDeadline, ruleLockPair, ruleGetOrCreate,
+		Rules: []func(*Ctx){onlyObligations(ruleRunDispatch, func(o *Obligation) bool { return o.Func == "GRPCBroker.Run" || o.Func == "" }), ruleKnockTable, ruleMuxOnlyGRPC, ruleIDRoles, ruleDeadline, ruleLockPair, ruleGetOrCreate,
 			ruleOrderO8, ruleMuxSer, ruleSlot, ruleIDKnock, guardOn("grpcmux.", "GRPCBroker.serverStreams", "GRPCBroker.clientStreams"),
 		},
 		Technique:   "dominance query (listener registration before knock goroutine), must-held lockset for the serialised dial, channel-capacity check, id origin resolution",
@@ -120,7 +123,7 @@ func init() {
 		NotDecided:  "the four-goroutine hand-off under all schedules; behaviour when brokered connections are not established sequentially (excluded by the API contract).",
 	})
 	register(&propDef{ID: "C09",
-		Rules: []func(*Ctx){ruleWindows, ruleSlotCapacityOne, ruleBrokerCloseCloses, ruleIDRoles, ruleLockPair, ruleLockOrder, ruleRunNonBlocking, ruleStreamClose,
+		Rules: []func(*Ctx){ruleExpiryDrain, ruleRunDispatch, onlyObligations(ruleSibClose, func(o *Obligation) bool { return strings.HasPrefix(o.Construct, "closes the") }), ruleWindows, ruleSlotCapacityOne, ruleBrokerCloseCloses, ruleIDRoles, ruleLockPair, ruleLockOrder, ruleRunNonBlocking, ruleStreamClose,
 			ruleLockBlock, scoped(ruleBoundScoped, fnIn("MuxBroker.Accept", "MuxBroker.Run", "MuxBroker.timeoutWait", "MuxBroker.Dial", "GRPCBroker.DialWithOptions", "GRPCBroker.knock", "GRPCBroker.timeoutWait", "GRPCBroker.Run", "GRPCBroker.listenForKnocks", "GRPCBroker.Accept", "grpcmux.GRPCServerMuxer.session")),
 			ruleRes, ruleExpiry, ruleClose1,
 		},
@@ -129,52 +132,52 @@ func init() {
 		NotDecided:  "the expiry-instant race as a timing fact (its harmful effect, a blocking receive under the lock, is what R-LOCKBLOCK excludes); goroutine termination after Close.",
 	})
 	register(&propDef{ID: "C10",
-		Rules:       []func(*Ctx){ruleJSONKeys, ruleDrainSink, ruleStdioSequential, ruleStdoutLines, ruleStderrNewline, rulePanicFlag, ruleAssert, ruleDrain, ruleOrderO4, ruleLogLevels, onlyObligations(ruleWG, func(o *Obligation) bool { return strings.Contains(o.Construct, "pipe") })},
+		Rules:       []func(*Ctx){ruleIdxOutput, ruleKVForward, ruleJSONKeys, ruleDrainSink, ruleStdioSequential, ruleStdoutLines, ruleStderrNewline, rulePanicFlag, ruleAssert, ruleDrain, ruleOrderO4, ruleLogLevels, onlyObligations(ruleWG, func(o *Obligation) bool { return strings.Contains(o.Construct, "pipe") })},
 		Technique:   "call-graph reachability from the reader goroutines + type-assertion form check; loop-exit analysis against a reader effect table; case-to-method table agreement",
 		Explanation: "Decides: no single-result type assertion is reachable from the stdout/stderr reader goroutines (R-ASSERT); the stderr loop ends only on a non-nil read error and every successfully read chunk passes config.Stderr.Write(line) before the next read; the stdout scanner's early stop (ErrTooLong) is followed by a drain of the same reader (R-DRAIN); the drain goroutine for the line channel is registered right after its producer (O4); each [LEVEL] prefix and hclog level is logged with the method of the same name, panic: with Error, default Debug or Error inside a panic trace (R-TABLE/levels). Every scanned stdout line is handed on (R-DRAIN/lines); the goroutines reading the two pipes are counted in the WaitGroup the reaper waits for before runner.Wait (R-WG); chunks are forwarded by the loop that received them (R-ORDER/stdio). Each hclog key read from the JSON record is the key removed from the remainder; the fallback drain of stdout copies to io.Discard.",
 		NotDecided:  "newline/continuation reconstruction for every buffer size (value-level); hclog's own formatting.",
 		Assume:      []string{"bufio.Reader.ReadLine returns a non-nil error only at EOF or read failure", "bufio.Scanner stops with ErrTooLong at a 64 KiB token"},
 	})
 	register(&propDef{ID: "C11",
-		Rules:       []func(*Ctx){ruleDrainSink, ruleDefaults, ruleStdioSequential, ruleDeadline, ruleCtx, ruleStdioWiring, ruleFresh, ruleCopyChan},
+		Rules:       []func(*Ctx){ruleNoCloseWriter, scoped(ruleBoundScoped, fnIn("grpcStdioServer.StreamStdio", "grpcStdioClient.Run", "copyChan")), ruleDrainSink, ruleDefaults, ruleStdioSequential, ruleDeadline, ruleCtx, ruleStdioWiring, ruleFresh, ruleCopyChan},
 		Technique:   "label propagation (stdout/stderr) over resolved fields, parameters and constants; allocation-site-in-loop check; statement ordering in the chunk loop",
 		Explanation: "Decides the wiring and aliasing conditions: every edge of the stdio path joins equal labels (os.Pipe pair -> os.Stdout/os.Stderr and the server's Stdout/Stderr fields -> stdoutCh/stderrCh -> STDOUT/STDERR tags -> host stdout/stderr writers <- SyncStdout/SyncStderr; net/rpc stream 0/1 on both ends) (R-TABLE/stdio); the chunk sent on the channel is backed by an array declared inside the loop body, so a later read cannot overwrite bytes in flight (R-FRESH); data[:n] is sent before the error of the same read is acted on and the hand-off is an unconditional blocking send (O10). Every loop of the stdio path forwards the chunk it received itself (no goroutine per chunk: R-ORDER/stdio); no absolute deadline stays armed on the stdio streams (R-DEADLINE). Every non-empty read is forwarded (guard n > 0); NewClient stores a default only into the field it found unset (R-DEFAULTS).",
 		NotDecided:  "byte-exactness and ordering themselves (gRPC stream, yamux and io.Copy contracts); data written before the host attaches.",
 	})
 	register(&propDef{ID: "C12",
-		Rules:       []func(*Ctx){ruleCtorStoresTLS, ruleTLSConfig, ruleTLSPools, ruleTLSUse, ruleCertGen, ruleAutoMTLSGate, ruleEnvCertOnly, scoped(ruleErrL2Scoped, fnIn("Client.Start", "Client.loadServerCert")), scoped(ruleErrL1Scoped, fnIn("Client.loadServerCert"))},
+		Rules:       []func(*Ctx){cfgWritersFor("ClientConfig.TLSConfig", "ClientConfig.AutoMTLS", "ServeConfig.TLSProvider"), ruleCtorStoresTLS, ruleTLSConfig, ruleTLSPools, ruleTLSUse, ruleCertGen, ruleAutoMTLSGate, ruleEnvCertOnly, scoped(ruleErrL2Scoped, fnIn("Client.Start", "Client.loadServerCert")), scoped(ruleErrL1Scoped, fnIn("Client.loadServerCert"))},
 		Technique:   "composite-literal and field-store audit of every tls.Config in scope; origin resolution of certificate pools; provenance of TLS options at every listener/dial constructor call site",
 		Explanation: "Decides what go-plugin itself contributes to mutual authentication: both tls.Config literals require and verify client certificates, set MinVersion >= TLS 1.2, carry the freshly generated pair and no verification bypass, and no store weakens them (R-TLS/config); RootCAs and ClientCAs are, on both sides, a fresh pool that received exactly the peer's handshake certificate (R-TLS/pools); every gRPC server factory call, dialGRPCConn call and broker construction passes the owner's TLS config, the insecure dial option is dominated by tls == nil, and the net/rpc listener/conn are wrapped under a non-nil config (R-TLS/use); the two certificates travel in PLUGIN_CLIENT_CERT and handshake field 6; a certificate that cannot be parsed or pinned fails the start (R-ERR on Start/loadServerCert). The credential generator draws key and certificate from crypto/rand.Reader, self-signs with the generated key over its public half, and returns that same key (R-TLS/certgen). The server builds the mutual-TLS configuration on every path on which a client certificate is present and no provider configuration exists, and the only stores to ClientConfig.TLSConfig assign the audited literal (R-TLS/automtls).",
 		NotDecided:  "that crypto/tls enforces what is configured.",
 		Assume:      []string{"crypto/tls with ClientAuth=RequireAndVerifyClientCert and a single-certificate pool accepts only that certificate's key"},
 	})
 	register(&propDef{ID: "C13",
-		Rules:       []func(*Ctx){ruleCmdPathImmutable, ruleSecureOrder, ruleCmp, ruleSentinelSecure, scoped(ruleErrL1Scoped, fnIn("SecureConfig.Check")), scoped(ruleErrL2Scoped, fnIn("SecureConfig.Check"))},
+		Rules:       []func(*Ctx){cfgWritersFor("SecureConfig.Checksum", "SecureConfig.Hash", "ClientConfig.SecureConfig", "ClientConfig.Cmd"), ruleCmdPathImmutable, ruleSecureOrder, ruleCmp, ruleSentinelSecure, scoped(ruleErrL1Scoped, fnIn("SecureConfig.Check")), scoped(ruleErrL2Scoped, fnIn("SecureConfig.Check"))},
 		Technique:   "dominance of every launch site by the checksum gate; origin resolution of the compared operands; sentinel-return check",
 		Explanation: "Decides: SecureConfig.Check(cmd.Path) with both results tested dominates every launch site in Start (O1, G-sum); the boolean returned by Check is subtle.ConstantTimeCompare (or bytes.Equal) of the un-sliced Hash.Sum(nil) after io.Copy(Hash, file) of the file opened from the path parameter against the un-sliced Checksum (R-CMP); the empty-checksum and nil-hash guards return their sentinels before the file is opened, a mismatch returns ErrChecksumsDoNotMatch (R-SENT). Nothing in the module assigns exec.Cmd.Path or Args, so the hashed file is the executed file.",
 		NotDecided:  "hash function behaviour; replacement of the file between check and exec (documented upstream).",
 		Assume:      []string{"subtle.ConstantTimeCompare returns 1 iff the slices have equal length and contents"},
 	})
 	register(&propDef{ID: "C14",
-		Rules:       []func(*Ctx){ruleTranslateDirections, ruleDialOptions, ruleHostEnvFilter, ruleMuxOnlyGRPC, ruleCtorStoresTLS, ruleGateExcl, ruleGateProtoMux, ruleSibDispense, ruleSibSwitch, ruleOrderStart, ruleTLSUse},
+		Rules:       []func(*Ctx){cfgWritersFor("ClientConfig.AllowedProtocols", "ClientConfig.GRPCBrokerMultiplex", "ClientConfig.TLSConfig", "ClientConfig.AutoMTLS", "ClientConfig.Reattach", "ClientConfig.RunnerFunc", "ServeConfig.GRPCServer", "ServeConfig.TLSProvider"), ruleTLSConfig, ruleTranslateDirections, ruleDialOptions, ruleHostEnvFilter, ruleMuxOnlyGRPC, ruleCtorStoresTLS, ruleGateExcl, ruleGateProtoMux, ruleSibDispense, ruleSibSwitch, ruleOrderStart, ruleTLSUse},
 		Technique:   "dominance queries for configuration gates, sibling cross-check of Dispense implementations and protocol switches, TLS option provenance",
 		Explanation: "Decides: the exclusivity checks (exactly one of Cmd/Reattach/RunnerFunc; SecureConfig or multiplexing with Reattach) return errors before any launch site (G-excl); the announced protocol must be in AllowedProtocols and the multiplexing field must be present and true when requested, failing with an error that is or wraps ErrGRPCBrokerMuxNotSupported (G-proto, G-mux); all three Dispense implementations return a non-nil error on a map miss; Client() and Serve switch over both protocols with an error/panic default; NewClient defaults AllowedProtocols to exactly net/rpc (R-SIB); refused configurations terminate the plugin (O3); plaintext is used only when no TLS config exists (R-TLS/use). The yamux server muxer wraps the listener only on the gRPC arm of the protocol switch. dialGRPCConn lifts the message size limit in both directions (R-SIB/dialopts); translation directions (R-ID/translate); the host-environment filter drops the feature variables whatever their value.",
 		NotDecided:  "the end-to-end behaviour of each cell of the configuration matrix.",
 	})
 	register(&propDef{ID: "C15",
-		Rules:       []func(*Ctx){onlyObligations(ruleSibClose, func(o *Obligation) bool { return strings.HasPrefix(o.Construct, "Quit ") }), ruleRunnerKill, ruleReattach, ruleSentinelReattach, ruleExit, ruleGateExcl},
+		Rules:       []func(*Ctx){cfgWritersFor("ReattachConfig.Test", "ReattachConfig.Protocol", "ReattachConfig.Addr", "ClientConfig.Reattach"), ruleProcHandle, onlyObligations(ruleSibClose, func(o *Obligation) bool { return strings.HasPrefix(o.Construct, "Quit ") }), ruleRunnerKill, ruleReattach, ruleSentinelReattach, ruleExit, ruleGateExcl},
 		Technique:   "dominance (runner recorded only outside test mode), field-provenance of address/protocol, sentinel-return check, exit bookkeeping",
 		Explanation: "Decides: in reattach the store to Client.runner is dominated by the false edge of Reattach.Test; address and protocol come from the ReattachConfig with net/rpc as default; Client.ReattachConfig() and the test-mode literal in Serve fill Protocol, Addr, Pid, Test from the negotiated protocol, the listener address, the pid and true; both failure paths of the reattach probe return ErrProcessNotFound; the reattach goroutine cancels the context and marks exit. Both runner Kill implementations call os.Process.Kill on every path with a process (R-SIB/runnerkill). The control-connection server ends the plugin only on an edge on which the quit flag is known to be set.",
 		NotDecided:  "that the address reaches the same plugin instance (a run-time value).",
 	})
 	register(&propDef{ID: "C16",
-		Rules:       []func(*Ctx){ruleServeMuxExit, ruleServeServes, ruleCookie, ruleOrderServe, ruleHandshakeTable, ruleStdout},
+		Rules:       []func(*Ctx){cfgWritersFor("HandshakeConfig.MagicCookieKey", "HandshakeConfig.MagicCookieValue"), onlyObligations(ruleHostEnvFilter, func(o *Obligation) bool { return strings.Contains(o.Construct, "PLUGIN_MULTIPLEX_GRPC") }), ruleServeMuxExit, ruleServeServes, ruleCookie, ruleOrderServe, ruleHandshakeTable, ruleStdout},
 		Technique:   "dominance of listener/print sites by the cookie gate, statement ordering in Serve, format-string/argument table extraction, who-may-write audit of os.Stdout",
 		Explanation: "Decides: the empty key/value test and the exact != comparison of os.Getenv(key) with the value set exit code 1 and return before any listen or print site, and the deferred os.Exit reads that variable (G-cookie); the listener and server.Init precede the handshake print, print and Sync precede the os.Stdout swap (O6); the line is Sprintf(\"%d|%d|%s|%s|%s|%s\") of core version, negotiated version, listener network/address, protocol and certificate, with a seventh field only under os.Getenv(PLUGIN_MULTIPLEX_GRPC) != \"\" (R-TABLE/handshake); the only write to the real stdout in scope is that print (R-STDOUT). Both ServerProtocol.Serve implementations reach the accept loop on the announced listener on every path (nothing fallible between the print and accepting). ServeMux exits with status 1 on improper invocation.",
 		NotDecided:  "the exit status as observed by the OS; that a listening socket queues connections before Accept (kernel contract).",
 	})
 	register(&propDef{ID: "C17",
-		Rules:       []func(*Ctx){ruleLegacyFold, ruleDefaults, ruleHostEnvFilter, ruleEnv},
+		Rules:       []func(*Ctx){cfgWritersFor("ClientConfig.AutoMTLS", "ClientConfig.GRPCBrokerMultiplex", "ClientConfig.SkipHostEnv", "ClientConfig.VersionedPlugins", "ClientConfig.Cmd", "ClientConfig.UnixSocketConfig", "ClientConfig.HandshakeConfig", "HandshakeConfig.MagicCookieKey", "HandshakeConfig.MagicCookieValue", "HandshakeConfig.ProtocolVersion"), ruleLegacyFold, ruleDefaults, ruleHostEnvFilter, ruleEnv},
 		Technique:   "extraction of every element reaching exec.Cmd.Env with its dominating configuration conditions, compared with the reference table and with every os.Getenv reachable from Serve",
 		Explanation: "Decides the whole structural content of the property: each control variable is appended under exactly its configuration condition, the host environment exactly when SkipHostEnv is false and before every control variable, stdin unconditionally, the offered versions are the keys of the map the acceptance check ranges; every variable the server reads is one the client writes; conditional 'exactly when' variables are filtered out of the inherited environment. A control variable's conditions beyond the gates common to all of them are exactly its feature condition. NewClient defaults (R-DEFAULTS); the host-environment filter tests NAME= on the environment entry itself; legacy fold only if absent and set.",
 		NotDecided:  "exec.Cmd's duplicate-key resolution (later entries win).",
